@@ -75,6 +75,9 @@ func (mls *MetaLeaseSet) Verify() error {
 func (mls *MetaLeaseSet) signingPublicKeyForVerification() (types.SigningPublicKey, error) {
 	if mls.HasOfflineKeys() && mls.offlineSignature != nil {
 		// Use transient signing public key from offline signature
+		if err := mls.verifyOfflineSignature(); err != nil {
+			return nil, err
+		}
 		transientKeyBytes := mls.offlineSignature.TransientPublicKey()
 		transientSigType := mls.offlineSignature.TransientSigType()
 		spk, err := key_certificate.ConstructSigningPublicKeyByType(transientKeyBytes, int(transientSigType))
@@ -90,4 +93,24 @@ func (mls *MetaLeaseSet) signingPublicKeyForVerification() (types.SigningPublicK
 		return nil, oops.Errorf("failed to get signing public key from Destination: %w", err)
 	}
 	return spk, nil
+}
+
+// verifyOfflineSignature checks that the transient key of the offline block
+// was authorised by the Destination: the block's signature must verify over
+// expires || sigtype || transient_public_key under the Destination's own
+// signing key. Without this check anyone could attach a transient key of their
+// choosing (with a meaningless offline signature) and sign the lease set with it.
+func (mls *MetaLeaseSet) verifyOfflineSignature() error {
+	destKey, err := mls.destination.SigningPublicKey()
+	if err != nil {
+		return oops.Errorf("failed to get signing public key from Destination: %w", err)
+	}
+	verifier, err := destKey.NewVerifier()
+	if err != nil {
+		return oops.Errorf("failed to create verifier for offline signature: %w", err)
+	}
+	if err := verifier.Verify(mls.offlineSignature.SignedData(), mls.offlineSignature.Signature()); err != nil {
+		return oops.Errorf("offline signature is not signed by the Destination's key: %w", err)
+	}
+	return nil
 }
